@@ -746,6 +746,14 @@ class SqlalchemyRender:
             return sql_query, None
 
 
+def render_string_literal(value, dialect):
+    value = value.replace("'", "''")
+    if dialect.name == 'mysql':
+        # back-slash is an escape character inside MySQL string literals
+        value = value.replace('\\', '\\\\')
+    return "'{}'".format(value)
+
+
 def render_dml_query(statement, dialect):
 
     class LiteralCompiler(dialect.statement_compiler):
@@ -753,7 +761,7 @@ def render_dml_query(statement, dialect):
         def render_literal_value(self, value, type_):
 
             if isinstance(value, (str, dt.date, dt.datetime, dt.timedelta)):
-                return "'{}'".format(str(value).replace("'", "''"))
+                return render_string_literal(str(value), dialect)
 
             return super(LiteralCompiler, self).render_literal_value(value, type_)
 
@@ -765,7 +773,7 @@ def render_ddl_query(statement, dialect):
 
         def render_literal_value(self, value, type_):
             if isinstance(value, (str, dt.date, dt.datetime, dt.timedelta)):
-                return "'{}'".format(str(value).replace("'", "''"))
+                return render_string_literal(str(value), dialect)
 
             return super(LiteralCompiler, self).render_literal_value(value, type_)
 
